@@ -198,7 +198,10 @@ def gen_aes_comb(streams):
         vecs.append([_hx(_rand_bits(inp, 128)), _hx(_rand_bits(inp, 128))])
     inp.shuffle(vecs)
     return {'kind': 'aes_comb', 'sim': 'sim' if g.random() < 0.3 else 'fast',
-            'compose': g.random() < 0.35, 'share': g.random() < 0.5, 'vectors': vecs}
+            'compose': g.random() < 0.35, 'share': g.random() < 0.5, 'vectors': vecs,
+            # the decryption unit gets a key wire of its own (key ^ mask): units built from one
+            # AES object, or one after the other, must each use the key they were given
+            'key2_mask': _hx(_rand_bits(g, 128)) if g.random() < 0.5 else None}
 
 
 def gen_case(streams, tier):
@@ -641,7 +644,11 @@ def run_aes_comb(case, res):
             enc_w = a.encryption(data, key)
             e <<= enc_w
             d = pyrtl.Output(128, 'dec')
-            d <<= b.decryption(data, key)
+            key2 = key
+            if case.get('key2_mask'):
+                key2 = pyrtl.Input(128, 'key2')
+                res.probes.hit('aes_comb_second_key_wire')
+            d <<= b.decryption(data, key2)
             if case.get('compose'):
                 rt = pyrtl.Output(128, 'rt')
                 rt <<= b.decryption(enc_w, key)
@@ -652,11 +659,16 @@ def run_aes_comb(case, res):
     res.probes.hit('gen:aes_comb')
     for i, (k, x) in enumerate(case['vectors']):
         k, x = _iv(k), _iv(x)
-        sim.step({'key': k, 'data': x})
+        k2 = k
+        ins = {'key': k, 'data': x}
+        if case.get('key2_mask'):
+            k2 = k ^ _iv(case['key2_mask'])
+            ins['key2'] = k2
+        sim.step(ins)
         res.stateless += 1
         res.probes.hit('aes_comb_vectors')
         checks = [('enc', refs.aes_encrypt(x, k), 'gen:aes_encryption'),
-                  ('dec', refs.aes_decrypt(x, k), 'gen:aes_decryption')]
+                  ('dec', refs.aes_decrypt(x, k2), 'gen:aes_decryption')]
         if case.get('compose'):
             checks.append(('rt', x, 'gen:aes_decryption_of_encryption'))
         for name, exp, tag in checks:
@@ -734,10 +746,10 @@ def candidates(case):
                 c = copy.deepcopy(case)
                 del c['vectors'][i]
                 yield c
-        for f in ('compose', 'share'):
+        for f in ('compose', 'share', 'key2_mask'):
             if case.get(f):
                 c = copy.deepcopy(case)
-                c[f] = False
+                c[f] = False if f != 'key2_mask' else None
                 yield c
         return
     if kind == 'aes_sm':
